@@ -358,7 +358,7 @@ fn main() {
     let mut rep = Reporter::new(&a);
     // generous per-case wall-clock watchdog (typical cases take milliseconds); its firing is never a verdict
     // by itself: the driver re-runs the journaled case alone before calling it non-terminating
-    start_watchdog(a.get_u64("case-watchdog", 90));
+    start_watchdog(a.get_u64("case-watchdog", 60));
     match a.workload.as_str() {
         "roundtrip" => w_roundtrip::run(&a, &mut rep),
         "simple" => w_simple::run(&a, &mut rep),
